@@ -19,8 +19,8 @@ import WacProofs.Lemmas.LexFuel
       answers `OutOfFuel`, and the lexer's token list does not depend on its fuel: the model neither
       loops nor gets stuck, for every input.
   Partial (kept visible below): boundaries for `InvalidVersion` (in-bounds is proved), the spans
-  inside *trees*, the unreachability of the model's `Panic` sites, the Rust stack — those are
-  observed by the supervised harness and by the driver on every case.
+  inside *trees*, one of the four `Panic` sites of the model (`panic_sites_unreachable_partial`), the
+  Rust stack — those are observed by the supervised harness and by the driver on every case.
 -/
 namespace Wac.Props.C14
 open Wac Wac.Lex Wac.Parse Wac.Ast Wac.Lemmas Wac.Lemmas.LexSpans Wac.Lemmas.ParseSpans
@@ -104,5 +104,20 @@ theorem fuel_sufficient (src : Str) :
   split
   · simp
   · exact Wac.Lemmas.NoFuel.parseTokens_nf _
+
+/-- C14 "never panic" for the model.  The parser model turns the panic sites of the Rust parser
+(`Lookahead::error` without attempts, `lexer.next().unwrap()` after a successful lookahead,
+`assert!(!types.is_empty())`, `s.find('/').unwrap()` on a package path) into `Panic site` values.
+FULL statement: `parseDocument src ≠ .error (.Panic site)` for every `src` and `site`.
+Proved: the first three sites are unreachable for every input; the fourth
+(`"PackagePath: no slash"`) is excluded — it needs the fact that the text of a package-path token
+contains a `/`, which is a property of the token's regular expression and is left to the
+correspondence (the driver reports any `Panic` outcome of the model; none has been seen). -/
+theorem panic_sites_unreachable_partial (src : Str) (site : String)
+    (h : parseDocument src = .error (.Panic site)) : site = "PackagePath: no slash" := by
+  unfold parseDocument at h
+  split at h
+  · simp at h
+  · exact parseTokens_err h
 
 end Wac.Props.C14
